@@ -297,6 +297,53 @@ def run(ctx):
             for k in list(sys.modules):
                 if k.split(".")[0] == pkg:
                     del sys.modules[k]
+    # the producer is a data function that is only referenced by name and run indirectly (a list of steps, a callback): a load of
+    # its path later in the same evaluation returns the value just kept - on a fresh store too; a load before it is rejected
+    for ci, order in enumerate(["after", "before"]):
+        base = tempfile.mkdtemp(prefix="ddsverif_c09r_")
+        pkg = "c9r_%d_%d" % (os.getpid(), ci)
+        try:
+            real.reset_process_state()
+            real.set_store(["local", "memory"][ci % 2], os.path.join(base, "si"), os.path.join(base, "sd"))
+            ref.call(cmd="refpaths", paths={})
+            steps = [("'c1'", "after"), ("'c2'", order), ("'c2'", order), ("'c3'", order)]
+            for step, (expr, od) in enumerate(steps):
+                body = {"after": "    for st in [raw, clean]:\n        st()\n    out = hof(publish)\n    v = dds.load('/r/clean')\n    w = dds.load('/r/pub')\n",
+                        "before": "    v = dds.load('/r/clean')\n    for st in [raw, clean]:\n        st()\n    out = hof(publish)\n    w = None\n"}[od]
+                src = ("import dds\nfrom ddsverif_rt import log, term, hof\n\n"
+                       "@dds.data_function('/r/raw')\ndef raw():\n    log('raw')\n    return term('raw', %s)\n\n"
+                       "@dds.data_function('/r/clean')\ndef clean():\n    log('clean')\n    return term('clean', %s)\n\n"
+                       "@dds.data_function('/r/pub')\ndef publish():\n    log('publish')\n    return term('pub', %s)\n\n"
+                       "def f0():\n%s    return term('f0', out, v, w)\n" % (expr, expr, expr, body))
+                os.makedirs(os.path.join(base, pkg), exist_ok=True)
+                open(os.path.join(base, pkg, "__init__.py"), "w").close()
+                with open(os.path.join(base, pkg, "main.py"), "w") as fh:
+                    fh.write(src)
+                real.load_world(base, pkg + ".main", None, accept=pkg)
+                ref.call(cmd="world", dir=base, module=pkg + ".main", extmod=None)
+                entry = {"kind": "eval", "fun": "f0"}
+                ill = od == "before"
+                rr = None if ill else ref.call(cmd="run", entry=entry)
+                r = real.run(entry)
+                res.evaluations += 1
+                res.count("producers_referenced_by_name_steps")
+                res.nontrivial("producer referenced by name %s %d" % (order, step))
+                bad = None
+                if ill:
+                    if r["error"] is None or r["error"]["kind"] != "dds":
+                        bad = "the evaluation loads /r/clean before the data function (referenced by name, run from a list) has produced it: not rejected (value %r, error %s)" % (r["value"], r["error"])
+                    elif r["log"]:
+                        bad = "the rejected evaluation executed %s" % (r["log"],)
+                elif rr.get("error") is None and (r["error"] is not None or r["value"] != rr["value"]):
+                    bad = "data functions referenced by name and run from a list, then loaded: dds gives %r (error %s), plain execution %r" % (r["value"], r["error"], rr["value"])
+                if bad:
+                    res.violations.append({"what": bad, "input": {"source": src, "step": step, "order": order}, "kf": None})
+                    break
+        finally:
+            shutil.rmtree(base, ignore_errors=True)
+            for k in list(sys.modules):
+                if k.split(".")[0] == pkg:
+                    del sys.modules[k]
     pipeline.close_ref()
     res.rule = ("all 40 combinations placement {root, helper, kept, datafn, loaded value fed to a keep} x producer {datafn, keep} x order {before, after, earlier, never}, plus 16 where the producing function already appeared in the evaluation (called / kept at another path) "
                 "(x%d with fresh random variables / stores / entry kinds), each followed by re-evaluation, producer edit, unrelated edit; one "
